@@ -209,6 +209,10 @@ def _decompose_qpd_instructions(
         qubits = inst.qubits
         # All gates in decomposition should be local
         assert len(qubits) == 1
+        if inst.operation.basis_id is None:
+            raise ValueError(
+                "Cannot decompose a QPD gate whose basis_id is unset; provide map_ids."
+            )
         # Gather instructions with which we will replace the QPDGate
         tmp_data = []
         for data in inst.operation.definition.data:
